@@ -428,6 +428,7 @@ static AttributeKind attributeKind(CK_ATTRIBUTE_TYPE type)
 	case CKA_CHECK_VALUE: return akBinary;
 	case CKA_KEY_TYPE: return akInteger;
 	case CKA_SUBJECT: return akBinary;
+	case CKA_PUBLIC_KEY_INFO: return akBinary;
 	case CKA_ID: return akBinary;
 	case CKA_SENSITIVE: return akBoolean;
 	case CKA_ENCRYPT: return akBoolean;
@@ -464,6 +465,7 @@ static AttributeKind attributeKind(CK_ATTRIBUTE_TYPE type)
 	case CKA_KEY_GEN_MECHANISM: return akInteger;
 	case CKA_MODIFIABLE: return akBoolean;
 	case CKA_COPYABLE: return akBoolean;
+	case CKA_DESTROYABLE: return akBoolean;
 	case CKA_ECDSA_PARAMS: return akBinary;
 	case CKA_EC_POINT: return akBinary;
 	case CKA_SECONDARY_AUTH: return akBoolean;
